@@ -8,6 +8,7 @@ import (
 	"strings"
 
 	"golang.org/x/tools/go/packages"
+	"golang.org/x/tools/go/ssa"
 )
 
 // W — io.WriterTo discipline (C19). All of the module's output must pass the
@@ -23,8 +24,9 @@ func init() {
 	})
 	register(&Rule{
 		Name:  "W-2",
-		Doc:   "every method of the wrapper that writes: returns first when an error is latched, performs exactly one fmt.Fprint*(fw.w, …), adds its byte count to size and stores its error",
+		Doc:   "every write a wrapper method performs on the wrapped writer (on SSA, helpers of the wrapper followed): lies behind a dominating test of the latched error, its byte count is added to size and its error is stored in err",
 		Floor: 3,
+		NeedS: true,
 		Run:   ruleW2,
 	})
 	register(&Rule{
@@ -92,29 +94,50 @@ func (c *Ctx) writerAnchors() *writerInfo {
 	}
 	wi.wParam = sig.Params().At(0)
 	info := wi.p.TypesInfo
-	// the wrapper literal: a composite literal one of whose elements is the parameter
-	ast.Inspect(wi.writeTo.Body, func(n ast.Node) bool {
-		cl, ok := n.(*ast.CompositeLit)
+	// the wrapper: the struct type of package ir with exactly the fields {io.Writer, integer
+	// count, error}; a value of it is built from WriteTo's writer parameter (in WriteTo or in a
+	// constructor function WriteTo calls)
+	scope := wi.p.Types.Scope()
+	for _, name := range scope.Names() {
+		tn, ok := scope.Lookup(name).(*types.TypeName)
 		if !ok {
-			return true
+			continue
 		}
-		for _, el := range cl.Elts {
-			v := el
-			if kv, ok := el.(*ast.KeyValueExpr); ok {
-				v = kv.Value
-			}
-			if id, ok := unparen(v).(*ast.Ident); ok && info.Uses[id] == wi.wParam {
-				if n := namedOf(info.Types[cl].Type); n != nil {
-					wi.wrapper = n
+		n, ok := tn.Type().(*types.Named)
+		if !ok {
+			continue
+		}
+		st, ok := n.Underlying().(*types.Struct)
+		if !ok || st.NumFields() != 3 {
+			continue
+		}
+		var hasW, hasN, hasE bool
+		for i := 0; i < 3; i++ {
+			t := st.Field(i).Type()
+			switch {
+			case isIOWriter(t):
+				hasW = true
+			case isErrorType(t):
+				hasE = true
+			default:
+				if b, ok := t.Underlying().(*types.Basic); ok && b.Info()&types.IsInteger != 0 {
+					hasN = true
 				}
 			}
 		}
-		return true
-	})
+		if hasW && hasN && hasE {
+			if wi.wrapper != nil {
+				wi.problems = append(wi.problems, "more than one {io.Writer, count, error} struct in package ir")
+				return wi
+			}
+			wi.wrapper = n
+		}
+	}
 	if wi.wrapper == nil {
-		wi.problems = append(wi.problems, "no wrapper literal receiving WriteTo's writer")
+		wi.problems = append(wi.problems, "no {io.Writer, count, error} wrapper struct in package ir")
 		return wi
 	}
+	_ = info
 	st, _ := wi.wrapper.Underlying().(*types.Struct)
 	if st == nil {
 		wi.problems = append(wi.problems, "wrapper is not a struct")
@@ -215,6 +238,10 @@ func ruleW1(c *Ctx) []Obligation {
 			if cl, ok := stack[i].(*ast.CompositeLit); ok && namedOf(info.Types[cl].Type) == wi.wrapper {
 				okUse = true
 			}
+			// newWrapper(w): a constructor of package ir whose parameter only enters the wrapper literal
+			if call, ok := stack[i].(*ast.CallExpr); ok && c.isWrapperCtor(wi, calleeOf(info, call)) {
+				okUse = true
+			}
 		}
 		if !okUse {
 			bad = append(bad, c.pos(id.Pos()))
@@ -279,120 +306,217 @@ func ruleW2(c *Ctx) []Obligation {
 	}
 	info := wi.p.TypesInfo
 	var obs []Obligation
-	isField := func(e ast.Expr, f *types.Var) bool {
-		se, ok := unparen(e).(*ast.SelectorExpr)
-		return ok && info.ObjectOf(se.Sel) == f
+	st := wi.wrapper.Underlying().(*types.Struct)
+	fieldIdx := func(f *types.Var) int {
+		for i := 0; i < st.NumFields(); i++ {
+			if st.Field(i) == f {
+				return i
+			}
+		}
+		return -1
+	}
+	iW, iSize, iErr := fieldIdx(wi.fW), fieldIdx(wi.fSize), fieldIdx(wi.fErr)
+	// loadOf(v, i): v is a load of field i of a wrapper value
+	isFieldAddr := func(v ssa.Value, i int) bool {
+		fa, ok := v.(*ssa.FieldAddr)
+		if !ok || fa.Field != i {
+			return false
+		}
+		return namedOf(fa.X.Type()) == wi.wrapper
+	}
+	loadOf := func(v ssa.Value, i int) bool {
+		u, ok := v.(*ssa.UnOp)
+		return ok && u.Op == token.MUL && isFieldAddr(u.X, i)
+	}
+	isNilConst := func(v ssa.Value) bool {
+		k, ok := v.(*ssa.Const)
+		return ok && k.IsNil()
+	}
+	// latchTest: v is `fw.err != nil`, directly or as the result of a wrapper method returning it
+	var latchTest func(v ssa.Value, depth int) bool
+	latchTest = func(v ssa.Value, depth int) bool {
+		switch x := v.(type) {
+		case *ssa.BinOp:
+			return x.Op == token.NEQ && (loadOf(x.X, iErr) && isNilConst(x.Y) || loadOf(x.Y, iErr) && isNilConst(x.X))
+		case *ssa.Call:
+			callee := x.Call.StaticCallee()
+			if callee == nil || depth > 1 || callee.Signature.Recv() == nil || namedOf(callee.Signature.Recv().Type()) != wi.wrapper {
+				return false
+			}
+			all, n := true, 0
+			for _, b := range callee.Blocks {
+				if len(b.Instrs) == 0 {
+					continue
+				}
+				if r, ok := b.Instrs[len(b.Instrs)-1].(*ssa.Return); ok {
+					n++
+					if len(r.Results) != 1 || !latchTest(r.Results[0], depth+1) {
+						all = false
+					}
+				}
+			}
+			return all && n > 0
+		}
+		return false
+	}
+	// flow of a write's result into the bookkeeping stores
+	var reaches func(v ssa.Value, want func(ssa.Instruction, ssa.Value) bool, seen map[ssa.Value]bool) bool
+	reaches = func(v ssa.Value, want func(ssa.Instruction, ssa.Value) bool, seen map[ssa.Value]bool) bool {
+		if seen[v] || v.Referrers() == nil {
+			return false
+		}
+		seen[v] = true
+		for _, r := range *v.Referrers() {
+			if want(r, v) {
+				return true
+			}
+			switch r := r.(type) {
+			case *ssa.Convert:
+				if reaches(r, want, seen) {
+					return true
+				}
+			case *ssa.ChangeType:
+				if reaches(r, want, seen) {
+					return true
+				}
+			case *ssa.Phi:
+				if reaches(r, want, seen) {
+					return true
+				}
+			case *ssa.MakeInterface:
+				if reaches(r, want, seen) {
+					return true
+				}
+			case *ssa.BinOp:
+				if reaches(r, want, seen) {
+					return true
+				}
+			case *ssa.Store:
+				// spilled into a local cell (named results): follow the loads
+				if a, ok := r.Addr.(*ssa.Alloc); ok && r.Val == v {
+					for _, ar := range *a.Referrers() {
+						if ld, ok := ar.(*ssa.UnOp); ok && ld.Op == token.MUL {
+							if reaches(ld, want, seen) {
+								return true
+							}
+						}
+					}
+				}
+			case *ssa.Call:
+				callee := r.Call.StaticCallee()
+				if callee != nil && callee.Pkg != nil && callee.Pkg.Pkg.Path() == pkgIR && len(callee.Params) == len(r.Call.Args) {
+					for i, a := range r.Call.Args {
+						if a == v && reaches(callee.Params[i], want, seen) {
+							return true
+						}
+					}
+				}
+			}
+		}
+		return false
+	}
+	sizeStore := func(in ssa.Instruction, v ssa.Value) bool {
+		s, ok := in.(*ssa.Store)
+		if !ok || !isFieldAddr(s.Addr, iSize) || s.Val != v {
+			return false
+		}
+		b, ok := v.(*ssa.BinOp)
+		return ok && b.Op == token.ADD && (loadOf(b.X, iSize) || loadOf(b.Y, iSize))
+	}
+	errStore := func(in ssa.Instruction, v ssa.Value) bool {
+		s, ok := in.(*ssa.Store)
+		return ok && isFieldAddr(s.Addr, iErr) && s.Val == v
 	}
 	for _, fd := range wi.methods {
 		fn := info.Defs[fd.Name].(*types.Func)
-		// does the method write at all?
-		var calls []*ast.CallExpr
-		ast.Inspect(fd.Body, func(n ast.Node) bool {
-			if call, ok := n.(*ast.CallExpr); ok {
-				for _, a := range call.Args {
-					if isField(a, wi.fW) {
-						calls = append(calls, call)
+		sf := c.ssaFunc(fn)
+		if sf == nil {
+			continue
+		}
+		// write sites: calls that receive the writer field
+		var sites []ssa.CallInstruction
+		for _, b := range sf.Blocks {
+			for _, in := range b.Instrs {
+				ci, ok := in.(ssa.CallInstruction)
+				if !ok {
+					continue
+				}
+				cc := ci.Common()
+				uses := cc.IsInvoke() && loadOf(cc.Value, iW)
+				for _, a := range cc.Args {
+					x := a
+					if mi, ok := x.(*ssa.MakeInterface); ok {
+						x = mi.X
+					}
+					if ct, ok := x.(*ssa.ChangeInterface); ok {
+						x = ct.X
+					}
+					if loadOf(x, iW) {
+						uses = true
 					}
 				}
-				if se, ok := unparen(call.Fun).(*ast.SelectorExpr); ok && isField(se.X, wi.fW) {
-					calls = append(calls, call)
+				if uses {
+					sites = append(sites, ci)
 				}
 			}
-			return true
-		})
-		if len(calls) == 0 {
+		}
+		if len(sites) == 0 {
 			continue
 		}
 		o := Obligation{Key: "wrapper method " + funcKey(fn), Pos: c.pos(fd.Pos()), Verdict: OK}
-		fail := func(v, s string) {
+		fail := func(pos token.Pos, s string) {
 			if o.Verdict == OK {
-				o.Verdict, o.Detail = v, s
-			}
-		}
-		stmts := fd.Body.List
-		// 1. latch test first
-		if len(stmts) == 0 {
-			fail(UNDECIDED, "empty body")
-		} else if is, ok := stmts[0].(*ast.IfStmt); !ok || is.Init != nil || is.Else != nil {
-			fail(VIOL, "first statement is not `if fw.err != nil { return … }`: a write after a failed write is not suppressed")
-		} else {
-			be, ok := is.Cond.(*ast.BinaryExpr)
-			if !ok || be.Op != token.NEQ || !isField(be.X, wi.fErr) || exprString(be.Y) != "nil" {
-				fail(VIOL, "first statement does not test the latched error against nil: a write after a failed write is not suppressed")
-			} else if len(is.Body.List) == 0 {
-				fail(VIOL, "latch test has an empty body")
-			} else if _, ok := is.Body.List[len(is.Body.List)-1].(*ast.ReturnStmt); !ok {
-				fail(VIOL, "latch test does not return")
-			}
-			for _, call := range calls {
-				if call.Pos() >= is.Pos() && call.End() <= is.End() {
-					fail(VIOL, "the latched-error branch itself writes")
+				o.Verdict, o.Detail = VIOL, s
+				if pos.IsValid() {
+					o.Pos = c.pos(pos)
 				}
 			}
 		}
-		// 2. exactly one write, of the fmt.Fprint family, as a top-level `n, err = …`
-		if len(calls) != 1 {
-			fail(VIOL, fmt.Sprintf("%d calls use the writer field; the byte count of only one can be recorded", len(calls)))
-		}
-		var nV, errV types.Object
-		wIdx := -1
-		for i, st := range stmts {
-			as, ok := st.(*ast.AssignStmt)
-			if !ok || len(as.Rhs) != 1 || len(as.Lhs) != 2 {
+		for _, site := range sites {
+			// (1) latched: a dominating `if fw.err != nil { return }` with the write on its false side
+			latched := false
+			sb := site.Block()
+			for _, b := range sf.Blocks {
+				if len(b.Instrs) == 0 || len(b.Succs) != 2 {
+					continue
+				}
+				iff, ok := b.Instrs[len(b.Instrs)-1].(*ssa.If)
+				if !ok || !latchTest(iff.Cond, 0) {
+					continue
+				}
+				if b.Succs[1].Dominates(sb) && !b.Succs[0].Dominates(sb) && b.Succs[1] != b.Succs[0] {
+					latched = true
+				}
+			}
+			if !latched {
+				fail(site.Pos(), "a write to the wrapped writer is not guarded by the latched error (no dominating `if fw.err != nil { return … }` with the write on its false side): after a failed write this method still writes")
+			}
+			// (2) the write is fmt.Fprint*(fw.w, …) / a Write-like call whose (n, err) are both recorded
+			val := site.Value()
+			if val == nil {
+				fail(site.Pos(), "the write's results are discarded (go/defer)")
 				continue
 			}
-			if call, ok := as.Rhs[0].(*ast.CallExpr); ok && len(calls) > 0 && call == calls[0] {
-				cal := calleeOf(info, call)
-				if cal == nil || cal.Pkg() == nil || cal.Pkg().Path() != "fmt" || !strings.HasPrefix(cal.Name(), "Fprint") || !isField(call.Args[0], wi.fW) {
-					fail(VIOL, "the write is not fmt.Fprint*(fw.w, …)")
-				}
-				if a, ok := as.Lhs[0].(*ast.Ident); ok {
-					nV = info.ObjectOf(a)
-				}
-				if b, ok := as.Lhs[1].(*ast.Ident); ok {
-					errV = info.ObjectOf(b)
-				}
-				wIdx = i
-			}
-		}
-		if wIdx < 0 || nV == nil || errV == nil {
-			fail(VIOL, "the write's (n, err) results are not both kept in variables at the top level of the method")
-		} else {
-			// 3. after the write: size += int64(n); err = err (optionally under `if err != nil`)
-			sizeOK, errOK := false, false
-			for _, st := range stmts[wIdx+1:] {
-				switch st := st.(type) {
-				case *ast.AssignStmt:
-					if len(st.Lhs) == 1 && len(st.Rhs) == 1 {
-						if isField(st.Lhs[0], wi.fSize) && st.Tok == token.ADD_ASSIGN && usesOnly(info, st.Rhs[0], nV) {
-							sizeOK = true
-						} else if isField(st.Lhs[0], wi.fSize) {
-							fail(VIOL, "size is updated with something other than `+= n` of the write")
-						}
-						if isField(st.Lhs[0], wi.fErr) && st.Tok == token.ASSIGN && usesOnly(info, st.Rhs[0], errV) {
-							errOK = true
-						} else if isField(st.Lhs[0], wi.fErr) {
-							fail(VIOL, "err is set to something other than the write's error")
-						}
-					}
-				case *ast.IfStmt:
-					// if err != nil { fw.err = err }
-					if be, ok := st.Cond.(*ast.BinaryExpr); ok && be.Op == token.NEQ && usesOnly(info, be.X, errV) && exprString(be.Y) == "nil" && len(st.Body.List) == 1 && st.Else == nil {
-						if as, ok := st.Body.List[0].(*ast.AssignStmt); ok && len(as.Lhs) == 1 && isField(as.Lhs[0], wi.fErr) && usesOnly(info, as.Rhs[0], errV) {
-							errOK = true
-						}
+			var nV, errV ssa.Value
+			for _, r := range *val.Referrers() {
+				if ex, ok := r.(*ssa.Extract); ok {
+					switch ex.Index {
+					case 0:
+						nV = ex
+					case 1:
+						errV = ex
 					}
 				}
 			}
-			if !sizeOK {
-				fail(VIOL, "the byte count of the write is not added to the size field: WriteTo under-reports n")
+			if nV == nil || !reaches(nV, sizeStore, map[ssa.Value]bool{}) {
+				fail(site.Pos(), "the byte count of the write is not added to the size field: WriteTo under-reports n")
 			}
-			if !errOK {
-				fail(VIOL, "the error of the write is not stored in the err field: the first write error is lost and later writes continue")
+			if errV == nil || !reaches(errV, errStore, map[ssa.Value]bool{}) {
+				fail(site.Pos(), "the error of the write is not stored in the err field: the first write error is lost and later writes continue")
 			}
 		}
 		if o.Verdict == OK {
-			o.Detail = "latch test; one fmt.Fprint*(fw.w, …); size += n; err = err"
+			o.Detail = fmt.Sprintf("%d write(s) to the wrapped writer, each behind the error latch, byte count added to size, error stored", len(sites))
 		}
 		obs = append(obs, o)
 	}
@@ -437,6 +561,16 @@ func ruleW3(c *Ctx) []Obligation {
 			return true
 		}
 		nret++
+		// `return fw.result()` where result() is `return fw.size, fw.err`
+		if len(r.Results) == 1 {
+			if call, ok := unparen(r.Results[0]).(*ast.CallExpr); ok && len(call.Args) == 0 {
+				if se, ok := unparen(call.Fun).(*ast.SelectorExpr); ok {
+					if id, ok := unparen(se.X).(*ast.Ident); ok && info.ObjectOf(id) == wi.fwVar && c.returnsSizeErr(wi, calleeOf(info, call)) {
+						return true
+					}
+				}
+			}
+		}
 		if len(r.Results) != 2 || !isFwField(r.Results[0], wi.fSize) || !isFwField(r.Results[1], wi.fErr) {
 			if o.Verdict == OK {
 				o.Verdict = VIOL
@@ -607,4 +741,67 @@ func ruleW5(c *Ctx) []Obligation {
 		o.Detail = "WriteTo(buf); return buf.String()"
 	}
 	return []Obligation{o}
+}
+
+// isWrapperCtor: fn is a function of package ir returning the wrapper whose
+// io.Writer parameter is used only as an element of a wrapper literal.
+func (c *Ctx) isWrapperCtor(wi *writerInfo, fn *types.Func) bool {
+	fd := c.funcDecl(fn)
+	if fn == nil || fd == nil || fn.Pkg() == nil || fn.Pkg().Path() != pkgIR {
+		return false
+	}
+	sig := fn.Type().(*types.Signature)
+	if sig.Recv() != nil || sig.Results().Len() != 1 || namedOf(sig.Results().At(0).Type()) != wi.wrapper {
+		return false
+	}
+	info := wi.p.TypesInfo
+	ok := true
+	var stack []ast.Node
+	ast.Inspect(fd.Body, func(n ast.Node) bool {
+		if n == nil {
+			stack = stack[:len(stack)-1]
+			return true
+		}
+		stack = append(stack, n)
+		id, isID := n.(*ast.Ident)
+		if !isID {
+			return true
+		}
+		v, isVar := info.Uses[id].(*types.Var)
+		if !isVar || !isIOWriter(v.Type()) {
+			return true
+		}
+		inLit := false
+		for i := len(stack) - 2; i >= 0 && i >= len(stack)-3; i-- {
+			if cl, isCL := stack[i].(*ast.CompositeLit); isCL && namedOf(info.Types[cl].Type) == wi.wrapper {
+				inLit = true
+			}
+		}
+		if !inLit {
+			ok = false
+		}
+		return true
+	})
+	return ok
+}
+
+// returnsSizeErr: m is a method of the wrapper whose body is `return recv.size, recv.err`.
+func (c *Ctx) returnsSizeErr(wi *writerInfo, m *types.Func) bool {
+	fd := c.funcDecl(m)
+	if m == nil || fd == nil || fd.Recv == nil || len(fd.Body.List) != 1 {
+		return false
+	}
+	if r := m.Type().(*types.Signature).Recv(); r == nil || namedOf(r.Type()) != wi.wrapper {
+		return false
+	}
+	r, ok := fd.Body.List[0].(*ast.ReturnStmt)
+	if !ok || len(r.Results) != 2 {
+		return false
+	}
+	info := wi.p.TypesInfo
+	isF := func(e ast.Expr, f *types.Var) bool {
+		se, ok := unparen(e).(*ast.SelectorExpr)
+		return ok && info.ObjectOf(se.Sel) == f
+	}
+	return isF(r.Results[0], wi.fSize) && isF(r.Results[1], wi.fErr)
 }
